@@ -110,6 +110,17 @@ def loop_carried(index, rep):
                     return out_
                 uncond = [s_ for s_ in rebinds if not guards(s_)]
                 if uncond:
+                    # re-bound in every iteration: carried over only when the new value is computed from the old one (`x = f(x, ...)`) and
+                    # then handed to the run of the iteration - what iteration k made of it is what iteration k+1 starts from
+                    for s_ in uncond:
+                        reads_self = isinstance(s_.value, ast.Call) and any(isinstance(x, ast.Name) and x.id == name and isinstance(x.ctx, ast.Load)
+                                                                           for x in ast.walk(s_.value))
+                        first_bind = min(r_.lineno for r_ in rebinds) == s_.lineno
+                        handed_on = [c for c in ast.walk(lp) if isinstance(c, ast.Call) and c is not s_.value and c.lineno > s_.lineno
+                                     and any(isinstance(a2, ast.Name) and a2.id == name for a2 in list(c.args) + [k.value for k in c.keywords])]
+                        if reads_self and first_bind and handed_on and len(s_.targets) == 1 and isinstance(s_.targets[0], ast.Name):
+                            bad.append(f"`{name}` (set before the loop, replaced in every iteration by {norm_src(s_.value)[:60]} - computed from its own "
+                                       f"previous value - and handed to {norm_src(handed_on[0].func)[:40]} line {handed_on[0].lineno})")
                     continue
                 # every re-binding sits under an `if`; some branch of that `if` leaves the name as the previous iteration left it
                 covered = False
@@ -136,8 +147,8 @@ def loop_carried(index, rep):
                     bad.append(f"`{name}` (set before the loop, re-bound only under a condition at line {rebinds[0].lineno}, used at line "
                                f"{used[0].lineno})")
         rep.check(not bad, rule, f"{q}: nothing carried from one iteration's run into the next",
-                  "a container made before the loop is changed in every iteration and handed to the run of that iteration - entries set for one "
-                  "simulation / country are still there for the next: " + "; ".join(bad), loc=loc(rel, fn))
+                  "a container or setting made before the loop is changed inside the loop and handed to the run of that iteration - what was set for one "
+                  "simulation / country is still there for the next: " + "; ".join(bad), loc=loc(rel, fn))
         if n_loops < 1:
             raise AnalysisError(f"{q}: no loop found")
 
